@@ -338,6 +338,18 @@ pub fn run(p: &Params, rep: &mut Report) {
             rep.eval(Some(&r.txt()));
         }
     }
+    // the largest finite upper bound is not "unbounded": equality, hashing-as-map-key and inclusion keep them apart
+    for lo in [0u32, 1, 2, 7, 65_536, u32::MAX] {
+        let (f, i) = (LoopRange::finite(lo, u32::MAX), LoopRange::infinite(lo));
+        rep.inc("max_bound_vs_unbounded_probes");
+        let mut set = std::collections::HashSet::new();
+        set.insert(f);
+        set.insert(i);
+        if f == i || set.len() != 2 || !i.includes(&f) || f.includes(&i) || f.is_infinite() || !i.is_infinite() {
+            let case = format!("[{},{}] [{},inf)", lo, u32::MAX, lo);
+            rep.violation("value-semantics", &format!("value-semantics:{}", case), format!("finite({lo}, u32::MAX) and infinite({lo}): == is {}, a set of the two has {} elements, infinite.includes(finite) = {}, finite.includes(infinite) = {}", f == i, set.len(), i.includes(&f), f.includes(&i)), "ranges", &case, seed);
+        }
+    }
     rep.count("ranges_in_domain", rs.len() as u64);
     let mut rng = p.rng(15);
     check_large(rep, &mut rng, seed);
